@@ -505,6 +505,13 @@ func (g *gen) genTxn() *TxnProg {
 				if sk := NewRng(g.cs.Seed, uint64(g.cs.Run), uint64(len(t.Ops)), g.uniq, 95); sk.Chance(0.15) {
 					// the callback also writes the row's own key (an object that carries its key)
 					op.Writes = append(op.Writes, Write{SetKey: true, Val: strVal(key)})
+				} else if g.cs.World == "seq" && sk.Chance(0.15) {
+					// ... or a draft key which the key of the call then replaces: the row's key is
+					// written twice in the same commit and only the last one may resolve afterwards
+					if dk := g.keys[sk.Intn(len(g.keys))]; dk != key && !keysUsed[dk] {
+						keysUsed[dk] = true
+						op.Writes = append(op.Writes, Write{SetKey: true, Draft: true, Val: strVal(dk)})
+					}
 				}
 				inserted = true
 			case "querykey":
